@@ -601,9 +601,11 @@ class UnicodeFilesStream(NestedStream):
         return {"files": {ascii(k): v for k, v in out["files"].items()}, "invocation": out["invocation"]}
 
 
+import c05s12     # noqa: E402  (needs the classes above)
+
 PROPERTY = Property(
     pid="C05",
-    streams=[GlobStream(), ItemStream(), NestedStream(), UnicodeStream(), UnicodeFilesStream()],
+    streams=[GlobStream(), ItemStream(), NestedStream(), UnicodeStream(), UnicodeFilesStream()] + c05s12.STREAMS,
     assumptions=[
         "CPython re is modelled for the emitted fragment (literal, [^/]*, .*, (?:.*/)?, full match) by Py.Re.bt, whose soundness/completeness w.r.t. the denotational language is proved; the tie to CPython's engine is the exhaustive differential",
         "a lone final backslash in a glob has no meaning in the written language (wfGlob); the code ignores it — excluded from the oracle, still compared model vs code",
